@@ -227,77 +227,82 @@ func (R *Run) ruleSpecialFolder() {
 				if len(ret.Block().Preds) == 0 && ret.Block() != f.Blocks[0] {
 					continue
 				}
-				v := retValue(ret, 0)
-				if c, ok := v.(*ssa.Const); ok && c.Value != nil && c.Value.String() == "false" {
-					continue
+				vals := []ssa.Value{retValue(ret, 0)}
+				if phi, isPhi := vals[0].(*ssa.Phi); isPhi {
+					vals = phi.Edges // a result collected in a variable: every value it can hold
 				}
-				call, ok := v.(*ssa.Call)
-				if !ok {
-					why = append(why, "a return of "+fname(f)+" is neither false nor the substring test: "+P.sym(v))
-					continue
-				}
-				if calleeName(&call.Call) == "strings.Contains" {
-					nContains++
-					k, isK := constOf(call.Call.Args[1])
-					if !isK || k != it.want {
-						why = append(why, fmt.Sprintf("the substring tested is %q, not %q", k, it.want))
+				for _, v := range vals {
+					if c, ok := v.(*ssa.Const); ok && c.Value != nil && c.Value.String() == "false" {
+						continue
 					}
-					if inLoop(call.Block()) {
-						why = append(why, "the test runs inside a loop over the path items")
+					call, ok := v.(*ssa.Call)
+					if !ok {
+						why = append(why, "a return of "+fname(f)+" is neither false nor the substring test: "+P.sym(v))
+						continue
 					}
-					last := false
-					lower := false
-					P.reaches(call.Call.Args[0], func(x ssa.Value) bool {
-						if cx, ok := x.(*ssa.Call); ok && calleeName(&cx.Call) == "strings.ToLower" {
-							lower = true
+					if calleeName(&call.Call) == "strings.Contains" {
+						nContains++
+						k, isK := constOf(call.Call.Args[1])
+						if !isK || k != it.want {
+							why = append(why, fmt.Sprintf("the substring tested is %q, not %q", k, it.want))
 						}
-						ia, ok := x.(*ssa.IndexAddr)
-						if !ok {
-							return false
+						if inLoop(call.Block()) {
+							why = append(why, "the test runs inside a loop over the path items")
 						}
-						if fld, ok := loadedField(ia.X); !ok || fld != "hotline.FilePath.Items" {
-							return false
-						}
-						if b, ok := stripConv(ia.Index).(*ssa.BinOp); ok && b.Op == token.SUB {
-							if one, ok := constInt(b.Y); ok && one == 1 {
-								if lc, ok := stripConv(b.X).(*ssa.Call); ok {
-									n := calleeName(&lc.Call)
-									if n == "(*hotline.FilePath).Len" || n == "builtin.len" {
-										last = true
+						last := false
+						lower := false
+						P.reaches(call.Call.Args[0], func(x ssa.Value) bool {
+							if cx, ok := x.(*ssa.Call); ok && calleeName(&cx.Call) == "strings.ToLower" {
+								lower = true
+							}
+							ia, ok := x.(*ssa.IndexAddr)
+							if !ok {
+								return false
+							}
+							if fld, ok := loadedField(ia.X); !ok || fld != "hotline.FilePath.Items" {
+								return false
+							}
+							if b, ok := stripConv(ia.Index).(*ssa.BinOp); ok && b.Op == token.SUB {
+								if one, ok := constInt(b.Y); ok && one == 1 {
+									if lc, ok := stripConv(b.X).(*ssa.Call); ok {
+										n := calleeName(&lc.Call)
+										if n == "(*hotline.FilePath).Len" || n == "builtin.len" {
+											last = true
+										}
 									}
 								}
 							}
+							return false
+						})
+						if !last {
+							why = append(why, "the name tested is not that of Items[Len()-1]")
 						}
-						return false
-					})
-					if !last {
-						why = append(why, "the name tested is not that of Items[Len()-1]")
-					}
-					if !lower {
-						why = append(why, "the name is not lower-cased before the test")
-					}
-					continue
-				}
-				h, isFn := call.Call.Value.(*ssa.Function)
-				if !isFn || h.Blocks == nil || !P.isRepoPkg(pkgOf(h)) || depth > 0 {
-					why = append(why, "a return of "+fname(f)+" is neither false nor the substring test: "+P.sym(v))
-					continue
-				}
-				inner := func(x ssa.Value) (string, bool) {
-					if s, ok := constString(x); ok {
-						return s, true
-					}
-					for i, prm := range h.Params {
-						if x == ssa.Value(prm) && i < len(call.Call.Args) {
-							return constOf(call.Call.Args[i])
+						if !lower {
+							why = append(why, "the name is not lower-cased before the test")
 						}
+						continue
 					}
-					return "", false
+					h, isFn := call.Call.Value.(*ssa.Function)
+					if !isFn || h.Blocks == nil || !P.isRepoPkg(pkgOf(h)) || depth > 0 {
+						why = append(why, "a return of "+fname(f)+" is neither false nor the substring test: "+P.sym(v))
+						continue
+					}
+					inner := func(x ssa.Value) (string, bool) {
+						if s, ok := constString(x); ok {
+							return s, true
+						}
+						for i, prm := range h.Params {
+							if x == ssa.Value(prm) && i < len(call.Call.Args) {
+								return constOf(call.Call.Args[i])
+							}
+						}
+						return "", false
+					}
+					if len(call.Call.Args) == 0 || call.Call.Args[0] != ssa.Value(f.Params[0]) {
+						why = append(why, "the helper is not applied to the receiver's own path")
+					}
+					nContains += judge(h, inner, depth+1)
 				}
-				if len(call.Call.Args) == 0 || call.Call.Args[0] != ssa.Value(f.Params[0]) {
-					why = append(why, "the helper is not applied to the receiver's own path")
-				}
-				nContains += judge(h, inner, depth+1)
 			}
 			return nContains
 		}
